@@ -17,7 +17,7 @@ AlphaFirst == { B("a1"), B("h0"), B("a12"), B("a123"), B("ab12c"), B("abcdefg1")
 Words  == { B("und"), B("UND"), B("true"), B("root"), B("u"), B("t"), B("x"), B("U"), B("z") }
 Odd    == { B("e."), B("en*"), B("e n"), <<101, 0>>, <<128, 128>>, <<195, 129, 195, 129>>,
             <<255>>, B("en.US"), B("1.ab"), B("@@"), B("[["), B("``"), B("{{"), B("//"),
-            B("::"), B("$") }
+            B("::"), B("$"), B("en "), <<32, 101, 110>>, <<101, 110, 10>>, <<9, 85, 83>> }
 
 (* language-identifier models: everything                                  *)
 TokensLI == Lowers \cup Uppers \cup Mixed \cup Digits \cup DigitFirst \cup AlphaFirst
